@@ -8,14 +8,15 @@ use crate::{obj, Ctx};
 use crate::refmodel::asm::encode;
 use emulator_2a_lib::compiler::Translator;
 use emulator_2a_lib::parser::{Asm, AsmParser, Instruction, Line};
+use std::process::{Command, Stdio};
 
 pub fn meta() -> Meta {
     Meta {
         id: "C16",
-        rule: "seeded programs from the grammar generator (every instruction form and operand shape, all numeric values incl. boundaries, labels of any length and case, comments with arbitrary printable and Unicode content, long .DB/.DW lists exceeding the pad width, 0-40 labels, header comments) are parsed, rendered with Display and parsed again; the second AST must equal the first, line by line. distinct_nontrivial counts distinct (instruction shape, has-comment) line classes that went through the round trip",
+        rule: "seeded programs from the grammar generator (every instruction form and operand shape, all numeric values incl. boundaries, labels of any length and case, comments with arbitrary printable and Unicode content, long .DB/.DW lists exceeding the pad width, 0-40 labels, header comments) are parsed, rendered with Display and parsed again; the second AST must equal the first, line by line; the same for the translator's listing lines; and for the program pane of the real interactive session: sampled programs are loaded one after the other through the `load` command (headless driver), alternately under their own file name and under one file name whose content is replaced between the loads, and after every load the pane's lines must parse back to the program that was just loaded. distinct_nontrivial counts distinct (instruction shape, has-comment) line classes that went through the round trip",
         exhaustive: false,
         assumptions: vec!["the rendering under test is `format!(\"{}\", asm)`: header line plus one Display-rendered line per source line (the per-line rendering is what the TUI program pane and byte-code listings show)"],
-        floors: vec![("round_trips", 20_000), ("lines_round_tripped", 300_000), ("lines_with_unicode_comment", 5_000), ("long_data_lines", 500), ("programs_with_40_labels", 100), ("listing_round_trips", 5_000)],
+        floors: vec![("round_trips", 20_000), ("lines_round_tripped", 300_000), ("lines_with_unicode_comment", 5_000), ("long_data_lines", 500), ("programs_with_40_labels", 100), ("listing_round_trips", 5_000), ("pane_loads", 100), ("pane_reloads_of_an_edited_file", 40)],
     }
 }
 
@@ -112,12 +113,113 @@ pub fn round_trip(asm: &Asm, rep: &mut Report) -> Option<(String, String)> {
     None
 }
 
+fn unhex(h: &str) -> Option<String> {
+    if h.len() % 2 != 0 {
+        return None;
+    }
+    let b: Option<Vec<u8>> = (0..h.len() / 2).map(|i| u8::from_str_radix(h.get(2 * i..2 * i + 2)?, 16).ok()).collect();
+    String::from_utf8(b?).ok()
+}
+
+/// Loads the programs one after the other in one interactive session and compares the program
+/// pane after every load with the program just loaded. Odd positions are loaded under the single
+/// name `cur.asm` whose content is replaced before the load, even ones under their own name.
+fn pane_session(ctx: &Ctx, texts: &[String], tag: &str, rep: &mut Report) -> Option<(String, String, usize)> {
+    let emu = ctx.emu.as_ref()?;
+    let dir = ctx.work.join("c16").join(format!("pane-{}", tag));
+    let _ = std::fs::create_dir_all(&dir);
+    let mut script = String::from("SCRIPT s 100 40\nFUEL 400000\n");
+    for (j, t) in texts.iter().enumerate() {
+        if std::fs::write(dir.join(format!("p{}.asm", j)), t).is_err() {
+            return None;
+        }
+        let name = if j % 3 == 0 {
+            format!("p{}.asm", j)
+        } else {
+            script.push_str(&format!("COPY p{}.asm cur.asm\n", j));
+            "cur.asm".to_string()
+        };
+        for c in format!("load {}", name).chars() {
+            script.push_str(&format!("K c{:x} 0\n", c as u32));
+        }
+        script.push_str("K enter 0\nPANE\n");
+    }
+    let sp = dir.join("script.txt");
+    if std::fs::write(&sp, script).is_err() {
+        return None;
+    }
+    let out = Command::new(emu).current_dir(&dir).env("VERIF_TUI_SCRIPT", &sp).env("TMPDIR", &dir).env("RUST_BACKTRACE", "0").stdin(Stdio::null()).stdout(Stdio::piped()).stderr(Stdio::null()).output();
+    let _ = std::fs::remove_dir_all(&dir);
+    let out = match out {
+        Ok(o) => o,
+        Err(e) => {
+            rep.inconclusive(format!("cannot start the session driver: {}", e));
+            return None;
+        }
+    };
+    let stdout = String::from_utf8_lossy(&out.stdout).to_string();
+    if !stdout.lines().any(|l| l == "DONE") || stdout.lines().any(|l| l.starts_with("DRIVER-ERROR")) {
+        rep.inconclusive(format!("session driver did not finish cleanly (status {:?}): {:?}", out.status.code(), stdout.lines().find(|l| l.starts_with("DRIVER-ERROR"))));
+        return None;
+    }
+    if let Some(l) = stdout.lines().find(|l| l.starts_with("PANIC ")) {
+        rep.inconclusive(format!("the session panicked while loading an accepted program (C06's subject), pane not observable: {}", l.chars().take(200).collect::<String>()));
+        return None;
+    }
+    let panes: Vec<&str> = stdout.lines().filter(|l| l.starts_with("PANE s ")).collect();
+    if panes.len() != texts.len() {
+        rep.inconclusive(format!("expected {} PANE lines, got {}", texts.len(), panes.len()));
+        return None;
+    }
+    for (j, (t, l)) in texts.iter().zip(panes.iter()).enumerate() {
+        let pane = match l.split(' ').nth(3).and_then(unhex) {
+            Some(p) => p,
+            None if l.split(' ').count() == 3 || l.ends_with(' ') => String::new(),
+            None => {
+                rep.inconclusive("unreadable PANE line".into());
+                return None;
+            }
+        };
+        let asm = AsmParser::parse(t).ok()?;
+        let want: Vec<&Line> = asm.lines.iter().filter(|l| **l != Line::Empty(None)).collect();
+        let shown = format!("#! mrasm\n{}", pane);
+        let how = if j % 3 == 0 { "under its own name" } else { "under a name whose file was replaced" };
+        match catch(|| AsmParser::parse(&shown)) {
+            Ok(Ok(b)) => {
+                let got: Vec<&Line> = b.lines.iter().filter(|l| **l != Line::Empty(None)).collect();
+                if got != want {
+                    let i = got.iter().zip(want.iter()).position(|(x, y)| x != y).unwrap_or(got.len().min(want.len()));
+                    let sig = if j > 0 && {
+                        let prev = AsmParser::parse(&texts[j - 1]).ok()?;
+                        let pw: Vec<&Line> = prev.lines.iter().filter(|l| **l != Line::Empty(None)).collect();
+                        pw == got
+                    } {
+                        "C16:pane-shows-previous-program"
+                    } else {
+                        "C16:pane-line-differs"
+                    };
+                    return Some((sig.into(), format!("program #{} of the session (loaded {}): pane line {} parses as {:?}, the loaded program has {:?}", j, how, i, got.get(i), want.get(i)), j + 1));
+                }
+            }
+            Ok(Err(e)) => return Some(("C16:pane-rejected".into(), format!("program #{} of the session (loaded {}): the pane text is not accepted by the parser: {}", j, how, format!("{}", e).lines().take(5).collect::<Vec<_>>().join(" | ")), j + 1)),
+            Err(p) => return Some((format!("C16:panic-in-reparse:{}", p.site()), p.msg, j + 1)),
+        }
+        rep.inc("pane_loads");
+        if j % 3 != 0 && j > 1 {
+            rep.inc("pane_reloads_of_an_edited_file");
+        }
+    }
+    None
+}
+
 pub fn run(ctx: &Ctx) -> Report {
     let n = ctx.size(400_000, 8_000_000) as usize;
     let batches = (n + 199) / 200;
+    let pane_every = (batches / (ctx.size(24, 500) as usize).max(1)).max(1);
     par_items(ctx.threads, batches, ctx.seed, move |i, seed, rep| {
         let mut rng = Rng::new(seed);
         let mut opts = Opts::parser();
+        let mut for_pane: Vec<String> = vec![];
         for k in 0..200 {
             opts.max_lines = if k % 10 == 0 { 80 } else { 30 };
             let g = asmtext::program(&mut rng, &opts);
@@ -154,16 +256,31 @@ pub fn run(ctx: &Ctx) -> Report {
                 Some((sig, what)) => rep.violate(&sig, what, obj![("text", g.text.clone())]),
                 None => rep.inc("round_trips"),
             }
+            if i % pane_every == 0 && for_pane.len() < 10 && k % 7 == 0 && encode(&asm).is_ok() {
+                for_pane.push(g.text.clone());
+            }
             if i == 0 && k == 3 {
                 rep.sample(obj![("source_text", g.text.clone()), ("rendering", format!("{}", asm))]);
+            }
+        }
+        if for_pane.len() > 1 {
+            if let Some((sig, what, upto)) = pane_session(ctx, &for_pane, &format!("{}", i), rep) {
+                rep.violate(&sig, what, obj![("pane_session", J::Arr(for_pane.iter().take(upto).map(|t| J::from(t.clone())).collect()))]);
             }
         }
     })
 }
 
-pub fn replay(_ctx: &Ctx, w: &J) -> Report {
+pub fn replay(ctx: &Ctx, w: &J) -> Report {
     let mut rep = Report::new();
     rep.evaluations = 1;
+    if let Some(a) = w.get("pane_session").and_then(|a| a.as_arr()) {
+        let texts: Vec<String> = a.iter().filter_map(|t| t.as_str().map(|s| s.to_string())).collect();
+        if let Some((sig, what, _)) = pane_session(ctx, &texts, "replay", &mut rep) {
+            rep.violate(&sig, what, w.clone());
+        }
+        return rep;
+    }
     let text = w.get("text").and_then(|t| t.as_str()).unwrap_or("");
     match catch(|| AsmParser::parse(text)) {
         Ok(Ok(asm)) => {
